@@ -702,30 +702,26 @@ func (self Node) Gets(keys []PathNode, opts *Options) error {
 	}
 
 	need := len(keys)
+	isStrKey := self.kt == proto.STRING
 	for count := 0; it.HasNext() && count < need; {
+		// read ONE entry, then compare it with every wanted key
+		var skey string
+		var ikey int
+		var s, e int
+		if isStrKey {
+			_, skey, s, e = it.NextStr(UseNativeSkipForGet)
+		} else {
+			_, ikey, s, e = it.NextInt(UseNativeSkipForGet)
+		}
+		if it.Err != nil {
+			return errNode(meta.ErrRead, "", it.Err)
+		}
 		for j, id := range keys {
-			if id.Path.Type() == PathStrKey {
-				exp := id.Path.str()
-				_, key, s, e := it.NextStr(UseNativeSkipForGet)
-				if it.Err != nil {
-					return errNode(meta.ErrRead, "", it.Err)
-				}
-				if key == exp {
-					keys[j].Node = self.slice(s, e, et)
-					count += 1
-					break
-				}
-			} else if id.Path.Type() == PathIntKey {
-				exp := id.Path.int()
-				_, key, s, e := it.NextInt(UseNativeSkipForGet)
-				if it.Err != nil {
-					return errNode(meta.ErrRead, "", it.Err)
-				}
-				if key == exp {
-					keys[j].Node = self.slice(s, e, et)
-					count += 1
-					break
-				}
+			if isStrKey && id.Path.Type() == PathStrKey && id.Path.str() == skey ||
+				!isStrKey && id.Path.Type() == PathIntKey && id.Path.int() == ikey {
+				keys[j].Node = self.slice(s, e, et)
+				count += 1
+				break
 			}
 		}
 	}
